@@ -355,6 +355,8 @@ def is_valid(ev, validators):
         return False            # Event.__init__ replaces 0 by the clock: the signature no longer fits
     if ev["sig"] == "00" * 64 or not signable(ev):
         return False
+    if not all(isinstance(t, list) and all(isinstance(x, str) or type(x) is int for x in t) for t in ev["tags"]):
+        return False            # admission (C03): tag items are strings or integers, nothing else
     if any(t and t[0] == "delegation" for t in ev["tags"]):
         return False            # unsigned delegation tags fail Event.verify (or make it raise)
     return True
@@ -398,6 +400,9 @@ def gen_tags(rng, stored_ids, now, signed):
             tags.append([rng.choice(["t", "e", "p"])])                  # bare
         elif r < 0.72 and not signed:
             tags.append(["delegation", "ab" * 32, "kind=1", "cd" * 64])
+        elif r < 0.76 and signed:
+            # items no admitted event may carry (the index keys of such a tag differ between addition and removal)
+            tags.append([rng.choice(["t", "p", "e", "d"]), rng.choice([["x", "y"], ["x"], [], True, None, 1.5, {"a": 1}, [["n"]]])])
         elif r < 0.80 and tags:
             tags.append(list(rng.choice(tags)))                         # duplicate tag
         else:
@@ -481,7 +486,7 @@ def brief_op(op):
     if "event" in op:
         e = op["event"]
         b["event"] = {"id": e["id"][:8], "who": env.PUBS.index(e["pubkey"]) if e["pubkey"] in env.PUBS else "?", "kind": e["kind"],
-                      "created_at": e["created_at"], "tags": [[x if len(x) < 24 else x[:8] + "..(%d)" % len(x) for x in t] for t in e["tags"]]}
+                      "created_at": e["created_at"], "tags": [[(x if len(x) < 24 else x[:8] + "..(%d)" % len(x)) if isinstance(x, str) else x for x in t] for t in e["tags"]]}
     if "events" in op:
         b["events"] = [e and e["id"][:8] for e in op["events"]]
     return b
